@@ -12,9 +12,13 @@ func NewReconcilerForVerif(transactions transactionstore.Store, proposals propos
 	return &Reconciler{transactions: transactions, proposals: proposals}
 }
 
-// NewWatcherForVerif exposes the watcher
-func NewWatcherForVerif(transactions transactionstore.Store) *Watcher {
-	return &Watcher{transactions: transactions}
+// NewWatcherForVerif exposes the watcher (with the proposal store, as NewController builds it, when one is given)
+func NewWatcherForVerif(transactions transactionstore.Store, proposals ...proposalstore.Store) *Watcher {
+	w := &Watcher{transactions: transactions}
+	if len(proposals) > 0 {
+		w.proposals = proposals[0]
+	}
+	return w
 }
 
 // NewProposalWatcherForVerif exposes the watcher
